@@ -108,6 +108,9 @@ func c13BlockKind(state string, blk []byte) string {
 		if bytes.Contains(blk, []byte("c13Sched).arrive")) {
 			return "park"
 		}
+		if bytes.Contains(blk, []byte("compose-go/v2/graph.walk")) {
+			return "cwait" // the coordinator after ctx.Done(), waiting for the caller to leave the extremities loop
+		}
 	case "chan send":
 		if bytes.Contains(blk, []byte("errgroup.(*Group).Go(")) {
 			return "spawn"
@@ -760,9 +763,16 @@ func c13View(gs map[int64]*c13G, alive map[int64]c13GInfo) string {
 		case "spawn":
 			out = append(out, gr.role+":spawn:"+c13KeyStr(p.key)+flag)
 		case "C.select":
-			out = append(out, gr.role+":select"+flag)
-		case "C.recv", "C.ctxDone", "C.exit":
-			out = append(out, gr.role+":select+")
+			out = append(out, gr.role+":select"+flag+"?")
+		case "C.ctxDone":
+			// parked: about to wait for `spawned`; blocked: the caller is still in its loop (model: m ≠ none)
+			if flag == "-" {
+				out = append(out, gr.role+":select+-")
+			} else {
+				out = append(out, gr.role+":select+?")
+			}
+		case "C.recv", "C.exit":
+			out = append(out, gr.role+":select+?")
 		case "M.wait":
 			out = append(out, gr.role+":wait"+flag)
 		case "W.begin":
